@@ -88,6 +88,39 @@ class Env(object):
         return res
 
 
+    def witnesses(self, ctx, families, rules, floors=None):
+        """Compile + analyse the witness families and replay the obligations of `rules`."""
+        from . import witgen, wit
+        total = 0
+        for fam in families:
+            ws = witgen.family(fam, self.tier, self.seed)
+            res = wit.run_witnesses(self.fdir, ws, "%s-%s" % (fam, self.tier))
+            n_prog = sum(r.programs for r in res)
+            pairs = sum(r.pairs for r in res)
+            cmps = sum(r.comparisons for r in res)
+            for r in res:
+                for rule, desc, ok, key, where, detail in r.obligations:
+                    if rule in rules or rule == "ENGINE":
+                        ctx.ob(rule, desc, ok, key=key, where=where, detail=detail)
+                for note in r.notes:
+                    if note not in ctx.notes and len(ctx.notes) < 40:
+                        ctx.notes.append(note)
+            ctx.count("witnesses_" + fam, len(ws))
+            ctx.count("programs", n_prog)
+            ctx.count("tv_related_pairs", pairs)
+            ctx.count("disagreements_checked", cmps)
+            total += len(ws)
+            if floors and fam in floors:
+                ctx.floor("witnesses in family " + fam, len(ws), floors[fam])
+            for w, r in list(zip(ws, res))[:2]:
+                if w.d is not None:
+                    ctx.sample({"witness": w.name, "family": fam, "definition": w.d.render(),
+                                "related_pairs": r.pairs, "comparisons": r.comparisons})
+                else:
+                    ctx.sample({"witness": w.name, "family": fam, "expect": w.expect, "note": w.note})
+        return total
+
+
 def explanation(prop):
     from . import props
     return props.PROPS[prop]["explanation"]
